@@ -21,6 +21,7 @@ Local Arguments quorum : simpl never.
 Local Arguments over23 : simpl never.
 Local Arguments countn : simpl never.
 Local Arguments correct : simpl never.
+Local Arguments lock_safe : simpl never.
 
 (* ------------------------------------------------------------------ *)
 (* equality tests                                                      *)
@@ -471,6 +472,64 @@ Section Safety.
     - exact (HA k r0 b0 Hck Hv).
   Qed.
 
+  Lemma other_polka_from_spec sp r0 b :
+    other_polka_from n sp r0 b = true <->
+    exists r2 w, (r0 <= r2)%N /\ w <> Some b /\ polka sp r2 w = true.
+  Proof.
+    unfold other_polka_from. rewrite existsb_exists. split.
+    - intros [m [_ H]]. rewrite !andb_true_iff, negb_true_iff in H.
+      destruct H as [[[_ Hle] Hw] Hp]. exists (v_round m), (v_value m).
+      repeat split; auto. apply N.leb_le; exact Hle. apply value_eqb_neq; exact Hw.
+    - intros (r2 & w & Hle & Hw & Hp).
+      destruct (quorum_has_correct sp r2 Prevote w Hp) as [k [_ Hin]].
+      exists (mkVote k r2 Prevote w). split; [exact Hin|]. cbn.
+      rewrite !andb_true_iff, negb_true_iff. repeat split; auto.
+      apply N.leb_le; exact Hle. apply value_eqb_neq; exact Hw.
+  Qed.
+
+  Lemma lock_covers_spec l r0 b :
+    lock_covers l r0 b = true <-> exists lr, l = Some (lr, b) /\ (r0 <= lr)%N.
+  Proof.
+    unfold lock_covers. destruct l as [[lr lb]|].
+    - rewrite andb_true_iff, N.eqb_eq, N.leb_le. split.
+      + intros [-> H]. eauto.
+      + intros [lr' [E H]]. injection E as -> ->. auto.
+    - split; [discriminate|]. intros [lr [E _]]. discriminate.
+  Qed.
+
+  (* [lock_safe sp i l] says exactly that clause I_A holds for i under lock l *)
+  Lemma lock_safe_spec sp i l :
+    lock_safe n sp i l = true <->
+    forall r b, In (mkVote i r Precommit (Some b)) sp ->
+      (exists lr, l = Some (lr, b) /\ (r <= lr)%N) \/
+      (exists r2 w, (r <= r2)%N /\ w <> Some b /\ polka sp r2 w = true).
+  Proof.
+    unfold lock_safe. rewrite forallb_forall. split.
+    - intros H r b Hin. specialize (H _ Hin). cbn in H.
+      rewrite Nat.eqb_refl in H. cbn in H.
+      apply orb_true_iff in H. destruct H as [H|H].
+      + left. apply lock_covers_spec. exact H.
+      + right. apply other_polka_from_spec. exact H.
+    - intros H m Hm. destruct m as [k r t v]. cbn.
+      destruct (Nat.eqb k i) eqn:Ek; [|reflexivity]. apply Nat.eqb_eq in Ek. subst k.
+      destruct t; [reflexivity|]. cbn. destruct v as [b|]; [|reflexivity].
+      apply orb_true_iff. destruct (H r b Hm) as [Hl|Hp].
+      + left. apply lock_covers_spec. exact Hl.
+      + right. apply other_polka_from_spec. exact Hp.
+  Qed.
+
+  Lemma inv_setlock s i l :
+    Inv s -> lock_safe n (soup s) i l = true -> Inv (set_lock s i l).
+  Proof.
+    intros (Hne & Hpp & HA & HC & HS & HD) Hsafe.
+    unfold Inv. repeat split; auto.
+    intros k r0 b0 Hck Hv. unfold hv in Hv. cbn [set_lock soup lock] in *.
+    unfold upd. destruct (Nat.eqb k i) eqn:E.
+    - apply Nat.eqb_eq in E. subst k.
+      exact (proj1 (lock_safe_spec _ _ _) Hsafe r0 b0 Hv).
+    - exact (HA k r0 b0 Hck Hv).
+  Qed.
+
   Lemma inv_decide s i r b :
     Inv s -> qprecommit (soup s) r (Some b) = true ->
     Inv (mkState (soup s) (lock s) (upd (decided s) i (Some b))).
@@ -491,7 +550,7 @@ Section Safety.
 
   Lemma inv_step s a s' : Inv s -> step s a = Some s' -> Inv s'.
   Proof.
-    intros HI Hs. destruct a as [i r v|i r v|i r b|i r' w|i r b|m|i]; cbn in Hs.
+    intros HI Hs. destruct a as [i r v|i r v|i r b|i r' w|i l|i r b|m|i]; cbn in Hs.
     - (* SendPrevote *)
       destruct (correct i) eqn:Hc; cbn in Hs; [|discriminate].
       destruct (voted_in (soup s) i r Prevote) eqn:Hv; cbn in Hs; [discriminate|].
@@ -530,6 +589,10 @@ Section Safety.
       injection Hs as <-. eapply inv_unlock; eauto.
       * apply N.leb_le. exact Hle.
       * apply value_eqb_neq. exact Hw.
+    - (* SetLock *)
+      destruct (correct i) eqn:Hc; cbn in Hs; [|discriminate].
+      destruct (lock_safe n (soup s) i l) eqn:Hsafe; [|discriminate].
+      injection Hs as <-. apply inv_setlock; auto.
     - (* Decide *)
       destruct (correct i) eqn:Hc; cbn in Hs; [|discriminate].
       destruct (qprecommit (soup s) r (Some b)) eqn:Hq; [|discriminate].
@@ -548,6 +611,21 @@ Section Safety.
     - injection Hr as <-. exact HI.
     - destruct (step s a) as [s1|] eqn:Hs; [|discriminate].
       exact (IH s1 s' (inv_step _ _ _ HI Hs) Hr).
+  Qed.
+
+  Lemma run_app s a1 a2 :
+    run s (a1 ++ a2) = match run s a1 with Some s' => run s' a2 | None => None end.
+  Proof.
+    revert s. induction a1 as [|a a1 IH]; intros s; cbn; [reflexivity|].
+    destruct (step s a); [apply IH|reflexivity].
+  Qed.
+
+  Lemma reachable_init : reachable init.
+  Proof. exists []. reflexivity. Qed.
+
+  Lemma reachable_step s a s' : reachable s -> step s a = Some s' -> reachable s'.
+  Proof.
+    intros [acts Hr] Hs. exists (acts ++ [a]). rewrite run_app, Hr. cbn. rewrite Hs. reflexivity.
   Qed.
 
   Lemma inv_reachable s : reachable s -> Inv s.
@@ -635,6 +713,35 @@ Section Safety.
   (* crash/restart with votes and lock intact does nothing to the abstract state *)
   Lemma crash_restart_identity s i s' : step s (CrashRestart i) = Some s' -> s' = s.
   Proof. cbn. destruct (correct i); [|discriminate]. intros H. injection H. auto. Qed.
+
+  (* lock changes that are always allowed ([SetLock] accepts them) in a reachable
+     state: keeping the lock, any lock at all for a validator that is unlocked,
+     the same block with a HIGHER lockedRound.  (A LOWER lockedRound is what
+     [RestartStale] does; it is refuted below.) *)
+  Lemma lock_safe_same s i :
+    reachable s -> correct i = true -> lock_safe n (soup s) i (lock s i) = true.
+  Proof.
+    intros Hr Hc. destruct (inv_reachable s Hr) as (_ & _ & HA & _).
+    apply lock_safe_spec. intros r b Hin. exact (HA i r b Hc Hin).
+  Qed.
+
+  Lemma lock_safe_unlocked s i l :
+    reachable s -> correct i = true -> lock s i = None -> lock_safe n (soup s) i l = true.
+  Proof.
+    intros Hr Hc Hl. destruct (inv_reachable s Hr) as (_ & _ & HA & _).
+    apply lock_safe_spec. intros r b Hin.
+    destruct (HA i r b Hc Hin) as [(lr & E & _)|H]; [congruence|right; exact H].
+  Qed.
+
+  Lemma lock_safe_raise s i lr b lr' :
+    reachable s -> correct i = true -> lock s i = Some (lr, b) -> (lr <= lr')%N ->
+    lock_safe n (soup s) i (Some (lr', b)) = true.
+  Proof.
+    intros Hr Hc Hl Hle. destruct (inv_reachable s Hr) as (_ & _ & HA & _).
+    apply lock_safe_spec. intros r b0 Hin.
+    destruct (HA i r b0 Hc Hin) as [(lr0 & E & Hle0)|H]; [|right; exact H].
+    rewrite Hl in E. injection E as -> ->. left. exists lr'. split; [reflexivity|lia].
+  Qed.
 
   (* a validator that acts on the subset of the soup it has received satisfies
      the evidence guards on the whole soup *)
@@ -769,6 +876,34 @@ Definition unstale (a : action_x) : list action :=
 Example sched_without_stale_restart_rejected :
   run 4 byz3 init (flat_map unstale sched_stale) = None.
 Proof. vm_compute. reflexivity. Qed.
+
+(* [SetLock] (the general lock change, meant for restarts) draws the line in
+   the same place: just before the stale restart of the schedule above,
+   validator 0 may come back with its lock (2,7), or with a higher round, but
+   not with (0,7) and not unlocked *)
+Definition stale_prefix : list action := firstn 21 (flat_map unstale sched_stale).
+
+Example setlock_rejects_stale_lock :
+  (exists s, run 4 byz3 init stale_prefix = Some s /\ lock s 0 = Some (2%N, 7%N)) /\
+  run 4 byz3 init (stale_prefix ++ [SetLock 0 (Some (0%N, 7%N))]) = None /\
+  run 4 byz3 init (stale_prefix ++ [SetLock 0 None]) = None /\
+  run 4 byz3 init (stale_prefix ++ [SetLock 0 (Some (2%N, 9%N))]) = None /\
+  (exists s, run 4 byz3 init (stale_prefix ++ [SetLock 0 (Some (2%N, 7%N))]) = Some s) /\
+  (exists s, run 4 byz3 init (stale_prefix ++ [SetLock 0 (Some (5%N, 7%N))]) = Some s).
+Proof.
+  vm_compute. repeat split; try reflexivity; eexists; try split; reflexivity.
+Qed.
+
+(* whereas a validator that was legitimately unlocked may come back with its
+   old lock (consensus.go does not log unlocks): harmless, it then prevotes 7 *)
+Example setlock_accepts_relock_after_unlock :
+  let pre := firstn 13 sched_rounds in
+  (exists s, run 4 byz3 init pre = Some s /\ lock s 0 = None) /\
+  (exists s, run 4 byz3 init (pre ++ [SetLock 0 (Some (0%N, 7%N)); SendPrevote 0 2 (Some 7%N)]) = Some s) /\
+  run 4 byz3 init (pre ++ [SetLock 0 (Some (0%N, 7%N)); SendPrevote 0 2 (Some 9%N)]) = None.
+Proof.
+  vm_compute. repeat split; try reflexivity; eexists; try split; reflexivity.
+Qed.
 
 (* ================================================================== *)
 (* Final statements (interface for Prop_C01.v)                         *)
